@@ -52,6 +52,18 @@ LOGSCRIPT = {"valid": "`src=${request.source} dst=${request.target} l=${request.
 
 def mutate(doc, path, op, param):
     d = copy.deepcopy(doc)
+    if op == "startup":
+        keys = path.split(".")
+        cur = d
+        for k in keys[:-1]:
+            cur = cur[int(k) if k.isdigit() else k]
+        old = cur[keys[-1]]
+        if param == "wrong_pem":
+            new = (FX + "/server.crt") if keys[-1] == "key" else (FX + "/server.key")
+        else:
+            new = {"no_slash": "api", "wildcard": "/api/*rest", "bad_header": "a\nb", "unbindable": "203.0.113.1:%s" % str(old).rsplit(":", 1)[-1]}[param]
+        cur[keys[-1]] = new
+        return d
     if op == "logscript":
         d["accessLog"]["format"] = {"script": LOGSCRIPT[param]}
         return d
@@ -87,7 +99,8 @@ def mutate(doc, path, op, param):
 
 def run_process_test(bindir, cfg_path, timeout=20):
     try:
-        p = subprocess.run([os.path.join(bindir, "rp"), "-c", cfg_path, "--test"], stdout=subprocess.PIPE, stderr=subprocess.STDOUT, timeout=timeout,
+        # the option takes a (dummy) value in this clap setup
+        p = subprocess.run([os.path.join(bindir, "rp"), "-c", cfg_path, "--test", "1"], stdout=subprocess.PIPE, stderr=subprocess.STDOUT, timeout=timeout,
                            env=dict(os.environ, RUST_LOG="error"))
     except subprocess.TimeoutExpired:
         return "hang", ""
@@ -105,6 +118,10 @@ def probe_running(wd, name, doc, ports):
     try:
         p.start(wait_ports=[ports[0]], timeout=8)
     except vlib.ToolError as e:
+        # refusing to start with an error message is fine; dying in a panic / on a signal is not
+        rc = p.p.returncode if p.p is not None else None
+        if p.panicked() or (rc is not None and (rc < 0 or rc in (134, 139))) or "panicked at" in str(e):
+            return "crashed-at-start", (str(p.panicked()) or str(e))[-300:]
         return "did-not-start", str(e)[-200:]
     res = "ok"
     why = ""
@@ -225,16 +242,23 @@ def run(tier, t0):
     # the real binary: --test on a sample, then start + probe for accepted ones
     sample = rnd.sample([(k, r, d) for (k, r, d) in meta if k == "row"], 300 if thorough else 40)
     nproc = 0
+    cp0 = os.path.join(wd, "base.yaml")
+    open(cp0, "w").write(json.dumps(base))
+    st0, msg0 = run_process_test(bindir, cp0)
+    if st0 != "accepted":
+        raise vlib.ToolError("positive control: `rp --test` does not accept the reference configuration: %s %s" % (st0, msg0))
+    agree = 0
     for kind, r, d in sample:
         cp = os.path.join(wd, "m.yaml")
         open(cp, "w").write(json.dumps(d))
         st, msg = run_process_test(bindir, cp)
         nproc += 1
         if st in ("crash", "hang"):
-            v.report("config/process-%s/%s/%s/%s" % (st, r["path"], r["op"], r["param"]), {"output": msg}, {"cmd": "rp --test -c <mutant>", "yaml": json.dumps(d)})
+            v.report("config/process-%s/%s/%s/%s" % (st, r["path"], r["op"], r["param"]), {"output": msg}, {"cmd": "rp --test 1 -c <mutant>", "yaml": json.dumps(d)})
+        agree += int(st == out[[c["id"] for c, (k2, r2, d2) in zip(cases, meta) if d2 is d][0]]["load"])
     nrun = 0
-    logrows = [(r, d) for r, d in accepted_rows if r["op"] == "logscript"]
-    others = [(r, d) for r, d in accepted_rows if r["op"] != "logscript"]
+    logrows = [(r, d) for r, d in accepted_rows if r["op"] in ("logscript", "startup")]
+    others = [(r, d) for r, d in accepted_rows if r["op"] not in ("logscript", "startup")]
     if not any(r["param"] == "valid" for r, _ in logrows):
         raise vlib.ToolError("the valid access-log script is not accepted")
     for r, d in logrows + rnd.sample(others, min(len(others), 60 if thorough else 10)):
@@ -254,7 +278,7 @@ def run(tier, t0):
                 "under catch_unwind (+ 20 s watchdog); a sample goes through `rp --test`; accepted mutants are started and probed; malformed rule "
                 "lists go through the POST /rules path",
         "samples": [{"row": rows[5], "outcome": out[6]["load"]}, {"graph": graphs[100], "outcome": out[len(rows) + 50]["load"]}],
-        "rows": len([1 for k, _, _ in meta if k == "row"]), "graphs": len(graphs), "posts": len(posts), "process_test_runs": nproc,
+        "rows": len([1 for k, _, _ in meta if k == "row"]), "graphs": len(graphs), "posts": len(posts), "process_test_runs": nproc, "process_test_agrees_with_in_process_loader": agree,
         "accepted_started_and_probed": nrun, "outcomes": {"%s/%s" % k: n for k, n in counts.items()}, "states": g.distinct,
     }, ["the in-process loader mirrors main() (same calls, same order); `rp --test` on a sample ties it to the real binary",
         "mutation-based: one mutation per document"])
